@@ -18,6 +18,8 @@ use std::sync::Arc;
 
 #[path = "../transport_client.rs"]
 pub mod transport_client;
+#[path = "../srv_conn.rs"]
+pub mod srv_conn;
 
 pub struct C12;
 pub static P: C12 = C12;
@@ -164,52 +166,9 @@ fn gen_validate(rng: &mut Rng, out: &mut Vec<String>) {
 }
 
 fn gen_srv(rng: &mut Rng, out: &mut Vec<String>) {
-    out.push("reset srv".to_string());
-    out.push("open".to_string());
-    let mut last: u64 = 1;
-    if rng.chance(1, 3) {
-        last = seq_base(rng);
-        out.push(format!("setlast {}", last));
-    }
-    let mut history: Vec<Vec<String>> = Vec::new();
-    for _ in 0..rng.range(1, 6) {
-        // a message of 1..4 chunks
-        let replay = !history.is_empty() && rng.chance(1, 4);
-        let lines: Vec<String> = if replay {
-            rng.pick(&history).clone()
-        } else {
-            let n = 1 + rng.weighted(&[6, 3, 2, 1]) as u64;
-            let first = match rng.weighted(&[8, 2, 1, 1]) {
-                0 => last + 1,
-                1 => last + 1 + rng.below(5),
-                2 => last,
-                _ => near(rng, last),
-            };
-            let req = 10 + rng.below(5);
-            let mut ls = Vec::new();
-            for i in 0..n {
-                let mut c = 1;
-                let mut s = first + i;
-                let mut r = req;
-                match rng.weighted(&[20, 1, 1, 1, 1]) {
-                    1 => c = *rng.pick(&[0u64, 2]),
-                    2 => s = near(rng, s),
-                    3 => r += 1,
-                    4 => s = first,
-                    _ => {}
-                }
-                let s = s.min(u32::MAX as u64);
-                let f = if i + 1 == n { "F" } else if rng.chance(1, 25) { "A" } else { "C" };
-                ls.push(format!("chunk {}:{}:{} {}", c, s, r, f));
-            }
-            last = (first + n - 1).min(u32::MAX as u64);
-            ls
-        };
-        if !replay {
-            history.push(lines.clone());
-        }
-        out.extend(lines);
-    }
+    let l = srv_conn::lens();
+    out.push(srv_conn::reset_line(*rng.pick(&[0u64, 0, 5]), 0));
+    srv_conn::gen_case(rng, &l, srv_conn::Profile::Numbering, 0, 0, false, out);
 }
 
 fn gen_tx(rng: &mut Rng, out: &mut Vec<String>) {
@@ -306,13 +265,9 @@ impl Prop for C12 {
 // ------------------------------------------------------------------------------------------------
 
 struct Srv {
-    t: TcpTransport,
-    closed: bool,
-    body: Vec<u8>,
-    off: usize,
-    /// reference bookkeeping from the property text
+    conn: srv_conn::Conn,
+    /// reference bookkeeping from the property text: headers of the chunks of the pending message
     pending: Vec<CI>,
-    max_accepted: Option<u32>,
     accepted: Vec<Vec<CI>>,
 }
 
@@ -393,7 +348,7 @@ fn ids_oracle(ids: &[u32], class: &str) -> Verdict {
 impl Runner for R {
     fn step(&mut self, toks: &[&str]) -> (String, Verdict) {
         match toks {
-            ["reset", "val"] | ["reset", "srv"] => ("ok".to_string(), Verdict::Ok),
+            ["reset", "val"] => ("ok".to_string(), Verdict::Ok),
             ["reset", "cli", mp, ch] => {
                 self.cli = Some(transport_client::Cli::new(mp.parse().unwrap(), ch.parse().unwrap()));
                 ("ok".to_string(), Verdict::Ok)
@@ -487,123 +442,72 @@ impl Runner for R {
                     }
                 }
             }
-            ["open"] => {
-                let mut t = new_transport();
-                let (out, r) = t.verif_process_hello(hello(), 65536, 65536);
-                if r.is_err() || out.len() != 1 {
-                    return (format!("err hello {:?}", r), Verdict::fail("setup", "-", "hello not acknowledged"));
-                }
-                let mut responses = 0;
-                for c in open_request_chunks(1, 1, 0, false) {
-                    let (out, r) = t.verif_process_chunk(c);
-                    if r.is_err() {
-                        return (format!("err open {:?}", r), Verdict::fail("setup", "-", "open failed"));
-                    }
-                    responses += out.len();
-                }
-                if responses != 1 {
-                    return ("err open".to_string(), Verdict::fail("setup", "-", "no open response"));
-                }
-                let chan = t.verif_secure_channel().read().secure_channel_id();
-                let last = t.verif_last_received_sequence_number();
+            ["reset", "conn", mc, mm, ..] => {
                 self.srv = Some(Srv {
-                    t,
-                    closed: false,
-                    body: get_endpoints_bytes(),
-                    off: 0,
+                    conn: srv_conn::Conn::new(mc.parse().unwrap_or(0), mm.parse().unwrap_or(0)),
                     pending: Vec::new(),
-                    max_accepted: Some(1),
                     accepted: Vec::new(),
                 });
-                (format!("ok chan={} last={}", chan, last), Verdict::Ok)
+                ("ok".to_string(), Verdict::Ok)
             }
-            ["setlast", n] => {
+            ["setlast", _] | ["hel", _] | ["ack"] | ["ch", ..] => {
                 let Some(s) = self.srv.as_mut() else {
                     return ("bad-op".to_string(), Verdict::Ok);
                 };
-                let n: u32 = n.parse().unwrap();
-                s.t.verif_set_last_received_sequence_number(n);
-                s.max_accepted = Some(n);
-                ("ok".to_string(), Verdict::Ok)
-            }
-            ["chunk", ci, f] => {
-                let (Some(s), Some(Some(c)), Some(fin)) = (self.srv.as_mut(), parse_ci(ci), fin_of(f)) else {
-                    return ("bad-op".to_string(), Verdict::Ok);
-                };
-                if s.closed {
-                    // the reading loop ended with the first Err: nothing is processed any more
-                    return ("err closed".to_string(), Verdict::Ok);
-                }
-                let body: Vec<u8> = match fin {
-                    MessageIsFinalType::Final => s.body[s.off..].to_vec(),
-                    MessageIsFinalType::Intermediate => {
-                        let e = (s.off + 3).min(s.body.len());
-                        let b = s.body[s.off..e].to_vec();
-                        s.off = e;
-                        b
-                    }
-                    MessageIsFinalType::FinalError => vec![],
-                };
-                if fin != MessageIsFinalType::Intermediate {
-                    s.off = 0;
-                }
-                let chunk = msg_chunk(c.chan, c.seq, c.req, fin, MessageChunkType::Message, &body);
-                let class = if s.max_accepted == Some(u32::MAX) { "last-at-max" } else { "-" };
+                let last_before = s.conn.t.verif_last_received_sequence_number();
+                let chan_before = s.conn.t.verif_secure_channel().read().secure_channel_id();
+                let class = if last_before == u32::MAX { "last-at-max" } else { "-" };
                 let res = {
-                    let t = &mut s.t;
-                    catch_unwind(AssertUnwindSafe(|| t.verif_process_chunk(chunk)))
+                    let conn = &mut s.conn;
+                    catch_unwind(AssertUnwindSafe(|| conn.step(toks)))
                 };
-                let (out, r) = match res {
-                    Err(_) => return ("panic".to_string(), Verdict::fail("no_panic", class, "process_chunk panicked")),
-                    Ok(x) => x,
+                let (line, info) = match res {
+                    Err(_) => return ("panic".to_string(), Verdict::fail("no_panic", class, "server connection panicked")),
+                    Ok(None) => return ("bad-op".to_string(), Verdict::Ok),
+                    Ok(Some(x)) => x,
                 };
-                let tail = format!(
-                    "last={} pend={}",
-                    s.t.verif_last_received_sequence_number(),
-                    s.t.verif_pending_chunks().len()
-                );
-                match fin {
-                    MessageIsFinalType::FinalError => s.pending.clear(),
-                    _ => s.pending.push(c),
-                }
-                match r {
-                    Err(e) => {
-                        s.closed = true;
-                        s.pending.clear();
-                        let v = if out.is_empty() { Verdict::Ok } else { Verdict::fail("accepts_only", class, "response sent for a rejected message") };
-                        (format!("err {}", e.name()), v)
-                    }
-                    Ok(()) if fin != MessageIsFinalType::Final => {
-                        let v = if out.is_empty() { Verdict::Ok } else { Verdict::fail("accepts_only", class, "response before the final chunk") };
-                        (format!("ok stored {}", tail), v)
-                    }
-                    Ok(()) => {
-                        // accepted: the property's conditions on the chunks that made up the message
-                        let cs: Vec<CI> = s.pending.drain(..).collect();
-                        let f0 = cs[0];
-                        let chan = s.t.verif_secure_channel().read().secure_channel_id();
-                        let v = if out.len() != 1 {
-                            Verdict::fail("accepts_only", class, format!("{} responses", out.len()))
-                        } else if cs.iter().enumerate().any(|(i, c)| c.seq as u64 != f0.seq as u64 + i as u64) {
-                            Verdict::fail("accepts_only", class, "not consecutive")
-                        } else if s.max_accepted.map(|m| f0.seq <= m).unwrap_or(false) {
-                            Verdict::fail("newer_than_accepted", class, format!("first {} not above {:?}", f0.seq, s.max_accepted))
-                        } else if cs.iter().any(|c| c.req != f0.req) {
-                            Verdict::fail("accepts_only", class, "request ids differ")
-                        } else if cs.iter().any(|c| c.chan != chan) {
-                            Verdict::fail("accepts_only", class, "foreign channel id")
-                        } else if s.accepted.contains(&cs) {
-                            Verdict::fail("replay_rejected", class, "a message accepted before was accepted again")
-                        } else if out[0].0 != f0.req {
-                            Verdict::fail("accepts_only", class, "response carries another request id")
-                        } else {
-                            Verdict::Ok
-                        };
-                        s.max_accepted = Some(cs.last().unwrap().seq);
-                        s.accepted.push(cs);
-                        (format!("ok accepted req={} {}", out.first().map(|x| x.0).unwrap_or(0), tail), v)
+                let mut v = Verdict::Ok;
+                if let Some((_, c, fin, _)) = &info.chunk {
+                    if !info.was_closed {
+                        match fin {
+                            MessageIsFinalType::FinalError => s.pending.clear(),
+                            _ => s.pending.push(*c),
+                        }
+                        if info.err.is_some() {
+                            s.pending.clear();
+                            if !info.responses.is_empty() {
+                                v = Verdict::fail("accepts_only", class, "response sent for a rejected message");
+                            }
+                        } else if *fin == MessageIsFinalType::Final {
+                            // accepted: the property's conditions on the chunks that made up the message
+                            let cs: Vec<CI> = s.pending.drain(..).collect();
+                            let f0 = cs[0];
+                            v = if info.responses.len() != 1 {
+                                Verdict::fail("accepts_only", class, format!("{} responses", info.responses.len()))
+                            } else if cs.iter().enumerate().any(|(i, c)| c.seq as u64 != f0.seq as u64 + i as u64) {
+                                Verdict::fail("accepts_only", class, "not consecutive")
+                            } else if f0.seq <= last_before {
+                                Verdict::fail("newer_than_accepted", class, format!("first {} not above {}", f0.seq, last_before))
+                            } else if cs.iter().any(|c| c.req != f0.req) {
+                                Verdict::fail("accepts_only", class, "request ids differ")
+                            } else if chan_before != 0 && cs.iter().any(|c| c.chan != chan_before) {
+                                Verdict::fail("accepts_only", class, "foreign channel id")
+                            } else if s.accepted.contains(&cs) {
+                                Verdict::fail("replay_rejected", class, "a message accepted before was accepted again")
+                            } else if !info.responses[0].ends_with(&format!("req={}", f0.req)) {
+                                Verdict::fail("accepts_only", class, "response carries another request id")
+                            } else if info.last as u64 != f0.seq as u64 + cs.len() as u64 - 1 {
+                                Verdict::fail("accepts_only", class, "mark is not the last sequence number")
+                            } else {
+                                Verdict::Ok
+                            };
+                            s.accepted.push(cs);
+                        } else if !info.responses.is_empty() {
+                            v = Verdict::fail("accepts_only", class, "response before the final chunk");
+                        }
                     }
                 }
+                (line, v)
             }
             ["setctr", a, bb] => {
                 let Some(tx) = self.tx.tx.as_mut() else {
